@@ -173,6 +173,42 @@ def cliPlan (cwd : Str) (thriftRoot : Option Str) (out : Str) (mods : List ModIn
     if verifyAncestry (absPath cwd r) paths then generatePlan (absPath cwd r) (absPath cwd out) mods plugs ord
     else .error .moduleFailed
 
+/-- `gen.Generate` under `--output-file ofile` with Thrift root `root`: only the module given on
+the command line (the first of `mods`) is generated — included modules are not — into
+`Join(packageRelPath, ofile)`. The key under which the file is collected is normalised by
+`addFile` like every other; plugins run and are merged as always. -/
+def generateOutputFile (root outAbs ofile : Str) (mods : List ModIn) (plugs : List (Option Files)) (ord : List Nat) :
+    Except PlanErr Files :=
+  match mods with
+  | [] => .error .moduleFailed
+  | main :: _ =>
+    match main.result, outputFilePath root main.thriftPath ofile with
+    | some c, some p =>
+      match runPlugins plugs ord with
+      | .error e => .error e
+      | .ok pf =>
+        match mergeFiles [(normKey p, c)] pf with
+        | none => .error .mergeConflict
+        | some all =>
+          match checkPaths all with
+          | some e => .error e
+          | none => .ok (all.map fun x => (join2 outAbs x.1, x.2))
+    | _, _ => .error .moduleFailed
+
+/-- main.go `do` under `--output-file`: the Thrift root is still determined from (and checked
+against) all modules. -/
+def cliPlanOutputFile (cwd : Str) (thriftRoot : Option Str) (out ofile : Str) (mods : List ModIn)
+    (plugs : List (Option Files)) (ord : List Nat) : Except PlanErr Files :=
+  let paths := mods.map (·.thriftPath)
+  match thriftRoot with
+  | none =>
+    match findCommonAncestor paths with
+    | none => .error .moduleFailed
+    | some root => generateOutputFile root (absPath cwd out) ofile mods plugs ord
+  | some r =>
+    if verifyAncestry (absPath cwd r) paths then generateOutputFile (absPath cwd r) (absPath cwd out) ofile mods plugs ord
+    else .error .moduleFailed
+
 /-- the writes of a run: none at all unless the whole plan succeeded. -/
 def writesOf (r : Except PlanErr Files) : Files :=
   match r with
